@@ -6,7 +6,7 @@ root = os.path.dirname(os.path.dirname(os.path.abspath(__file__)))
 shapes = [
     ("scalars", 3, True, False), ("ints", 5, False, False), ("fixed", 1, False, False), ("bytes", 0, True, True),
     ("nested", 4, True, False), ("repeated", 3, True, True), ("repscalar", 2, False, True), ("maps", 3, True, True), ("node", 3, True, False),
-    ("mapptr", 3, True, True),
+    ("mapptr", 3, True, True), ("arrays", 0, False, False),
 ]
 def wides(n, tier):
     if n == 0: return [0]
@@ -40,7 +40,7 @@ def units(prefix, harness, desc, covers, reps_q=[0, 1, 2], reps_t=[0, 1, 2, 3, 1
             us.append(u2)
     return us
 common_assume = [
-    "type shapes are the 10 catalogue structs of harness/proto/types.go (scalars, ints, fixed/float, bytes/array, nested+pointers, repeated, repeated scalars, maps, recursive node, maps of []byte / pointer-to-scalar / pointer-to-message + pointer-held message); values are symbolic inside a shape",
+    "type shapes are the 11 catalogue structs of harness/proto/types.go (scalars, ints, fixed/float, bytes/array, nested+pointers, repeated, repeated scalars, maps, recursive node, maps of []byte / pointer-to-scalar / pointer-to-message + pointer-held message, byte arrays of 3/6/7/13/14/15 bytes); values are symbolic inside a shape",
     "integer fields take full-width symbolic values one field at a time (vfWide), the others range over 0..255 or -128..127, to bound the product of varint size classes",
     "runtime map/slice primitives bound by //go:linkname are modelled by the real signature of the link target (engine builtin.go linkTarget); sync.Pool/atomic.Value are sequential stubs",
     "strings/bytes lengths and element counts are bounded as listed per unit",
